@@ -62,6 +62,9 @@ func optBytes(ok bool, b []byte) string {
 	return "(Some " + kit.Bytes(b) + ")"
 }
 
+// Coq prints the op as a Coq `sop` term
+func (o *Op) Coq() string { return o.coq() }
+
 func (o *Op) coq() string {
 	b := func(s string) string { return kit.Bytes(unhex(s)) }
 	switch o.Op {
@@ -288,6 +291,9 @@ func nontrivial(h *History) bool {
 	}
 	return false
 }
+
+// LoadHistory reads a history from a corpus or replay file
+func LoadHistory(path string) (*History, error) { return loadHistory(path) }
 
 func loadHistory(path string) (*History, error) {
 	b, err := os.ReadFile(path)
